@@ -2344,3 +2344,536 @@ func runNullsFirstSortNotPropagated(c *Ctx, rule string) {
 		c.OK(rule, "compiler/optimizer.sortKeysOfSort reports keys for a nulls-first sort", fn.Pos(), "keys are reported only where NullsFirst is false")
 	}
 }
+
+// ---- C10-M2: min/max/sum carry their state into a promoted accumulator only if they have one.
+//
+// When a value of a wider type arrives, mathReducer replaces its accumulator by one of the
+// promoted type, seeded with the old accumulator's result.  Before any non-null value was
+// consumed that result is the function's identity (MaxInt64 for min), which is not a value of the
+// input: the outcome then depends on whether a typed null happened to arrive first - i.e. on the
+// arrival order, which spilling and parallel legs change.
+func runMathReducerPromotion(c *Ctx, rule string) {
+	p := c.P
+	c.Rule(rule, "agg.mathReducer.consumeVal reads the old accumulator's result, to seed the promoted accumulator, only where m.hasval is true: the identity value of min/max never enters the computation as if it were data")
+	fn := p.Func("(*runtime/sam/expr/agg.mathReducer).consumeVal")
+	if fn == nil {
+		c.Undecided(rule, "(*runtime/sam/expr/agg.mathReducer).consumeVal", "anchor does not resolve")
+		return
+	}
+	var hasval []ssa.Value
+	for _, b := range fn.Blocks {
+		for _, in := range b.Instrs {
+			if u, ok := in.(*ssa.UnOp); ok && u.Op == token.MUL {
+				if fa, ok := u.X.(*ssa.FieldAddr); ok && fa.X == fn.Params[0] && fieldName(fa.X.Type(), fa.Field) == "hasval" {
+					hasval = append(hasval, u)
+				}
+			}
+		}
+	}
+	n := 0
+	for _, ci := range allCalls(fn) {
+		cc := ci.Common()
+		if !cc.IsInvoke() || cc.Method.Name() != "result" {
+			continue
+		}
+		n++
+		ok := false
+		for _, h := range hasval {
+			if trueEdgeDominatesOrSelf(h, ci.(ssa.Instruction).Block()) {
+				ok = true
+			}
+		}
+		construct := "(*runtime/sam/expr/agg.mathReducer).consumeVal seeds the promoted accumulator"
+		if ok {
+			c.OK(rule, construct, ci.Pos(), "only where a value has been consumed")
+		} else {
+			c.Fail(rule, construct, ci.Pos(), "the old accumulator's result is carried over even when no value has been consumed yet, so the identity of the function enters as data: `min(x)` over {x:null(int64)} {x:1e19} is 9.223372036854776e+18, over the same values in the other order 1e+19")
+		}
+	}
+	if n == 0 {
+		c.Undecided(rule, "(*runtime/sam/expr/agg.mathReducer).consumeVal", "no read of the old accumulator's result found")
+	}
+}
+
+// ---- C05-T1: the type order separates same-named types that name different types.
+//
+// LookupTypeUnion sorts its members with CompareTypes (stably) to make a union canonical.  Two
+// named types with the same name and the same underlying id can still be different types
+// (A=(B=int64) and A=(C=int64)); if they compare equal, the union's member order - and with it
+// the union type object - depends on the order the members were given in.
+func runTypeOrderSeparatesNamed(c *Ctx, rule string) {
+	p := c.P
+	c.Rule(rule, "in zed.CompareTypes the result for two named types depends, beyond their names, on a comparison of the types they name: distinct types never compare equal, so the canonical member order of a union does not depend on the order its members were listed in")
+	fn := p.Func("super.CompareTypes")
+	if fn == nil {
+		c.Undecided(rule, "super.CompareTypes", "anchor does not resolve")
+		return
+	}
+	// the block(s) where both operands were asserted to *TypeNamed
+	var both []*ssa.BasicBlock
+	var asserts []*ssa.TypeAssert
+	for _, b := range fn.Blocks {
+		for _, in := range b.Instrs {
+			if ta, ok := in.(*ssa.TypeAssert); ok && namedOf(ta.AssertedType) == "super.TypeNamed" {
+				asserts = append(asserts, ta)
+			}
+		}
+	}
+	for _, b := range fn.Blocks {
+		na := map[ssa.Value]bool{}
+		for _, ta := range asserts {
+			if assertDominates(ta, b) && ta.Block() != b {
+				na[ta.X] = true
+			}
+		}
+		if len(na) >= 2 {
+			both = append(both, b)
+		}
+	}
+	if len(both) == 0 {
+		c.Undecided(rule, "super.CompareTypes", "the case of two named types was not found")
+		return
+	}
+	recursive := false
+	for _, b := range both {
+		for _, in := range b.Instrs {
+			if ci, ok := in.(ssa.CallInstruction); ok && ci.Common().StaticCallee() == fn {
+				for _, a := range ci.Common().Args {
+					if dependsOn(a, func(v ssa.Value) bool {
+						fa, ok := v.(*ssa.FieldAddr)
+						return ok && namedOf(fa.X.Type()) == "super.TypeNamed" && fieldName(fa.X.Type(), fa.Field) == "Type"
+					}) {
+						recursive = true
+					}
+				}
+			}
+		}
+	}
+	construct := "super.CompareTypes on two named types"
+	if recursive {
+		c.OK(rule, construct, both[0].Instrs[0].Pos(), "names first, then the types they name")
+	} else {
+		c.Fail(rule, construct, fn.Pos(), "two named types are ordered by name alone: A=(B=int64) and A=(C=int64) compare equal, so LookupTypeUnion of the two returns a different union type for each listing order of its members")
+	}
+}
+
+// ---- C02-M2: the text after a map entry's colon is chosen with the value's type in hand.
+//
+// In compact form a numeric key, the colon and an IPv6 address, network or time lex as one token
+// (`1:::1`, `1:1970-01-01T00:00:00Z`).  Whether white space is needed after the colon depends on
+// the value's type; a formatter that decides it from the tab setting alone cannot be right.
+func runMapColonSeparator(c *Ctx, rule string) {
+	p := c.P
+	c.Rule(rule, "in zson.Formatter.formatMap the decision to write white space after an entry's colon depends on the type of the entry's value (the result of the value element helper), not only on the indentation setting: values whose text would fuse with a numeric key are kept apart")
+	fn := p.Func("(*zson.Formatter).formatMap")
+	if fn == nil {
+		c.Undecided(rule, "(*zson.Formatter).formatMap", "anchor does not resolve")
+		return
+	}
+	// the value type: result #0 of the second elemHelper.add call (the one for values)
+	var adds []ssa.Value
+	for _, ci := range allCalls(fn) {
+		if strings.HasSuffix(calleeName(ci.Common()), ").add") {
+			if v, ok := ci.(ssa.Value); ok {
+				adds = append(adds, v)
+			}
+		}
+	}
+	if len(adds) < 2 {
+		c.Undecided(rule, "(*zson.Formatter).formatMap", "the key and value element helpers were not found")
+		return
+	}
+	valAdd := adds[len(adds)-1]
+	ok := false
+	for _, b := range fn.Blocks {
+		if len(b.Instrs) == 0 {
+			continue
+		}
+		iff, isIf := b.Instrs[len(b.Instrs)-1].(*ssa.If)
+		if !isIf || !dependsOnCtl(iff.Cond, func(v ssa.Value) bool { return v == valAdd }) {
+			continue
+		}
+		// one of its successors writes a single space
+		for _, s := range b.Succs {
+			for _, in := range s.Instrs {
+				if ci, isCall := in.(ssa.CallInstruction); isCall && calleeName(ci.Common()) == "(*zson.Formatter).build" {
+					if k, isConst := ci.Common().Args[len(ci.Common().Args)-1].(*ssa.Const); isConst && k.Value != nil && k.Value.Kind() == constant.String && constant.StringVal(k.Value) == " " {
+						ok = true
+					}
+				}
+			}
+		}
+	}
+	construct := "(*zson.Formatter).formatMap separator after the colon"
+	if ok {
+		c.OK(rule, construct, fn.Pos(), "depends on the value's type")
+	} else {
+		c.Fail(rule, construct, fn.Pos(), "the separator after a map entry's colon does not depend on the value's type: `|{1: ::1}|` is written `|{1:::1}|` and `|{1: 1970-01-01T00:00:00Z}|` as `|{1:1970-01-01T00:00:00Z}|`, each of which lexes key, colon and value as one token and does not parse")
+	}
+}
+
+// ---- C05-I1: the member lists of registered types are read-only outside package zed.
+//
+// A type object registered in a Context is shared by every value of that type; its Types /
+// Fields / Symbols slices are part of the canonical object (the lookup tables are keyed by the
+// serialized form taken when it was registered).  Code outside package zed that wants to edit such
+// a list must copy it first.  A slice loaded from one of these fields (or re-sliced / appended
+// to, which may keep the backing array) must not be written through, nor handed to a function
+// that writes the elements of that parameter.
+func runTypeMemberListsReadOnly(c *Ctx, rule string) {
+	p := c.P
+	c.Rule(rule, "outside package zed, a slice loaded from TypeUnion.Types, TypeRecord.Fields or TypeEnum.Symbols is never stored through (element assignment, copy into, in-place compaction) nor passed to a function that writes the elements of that parameter, unless it went through slices.Clone: registered types stay what their lookup key says they are")
+	isSrc := func(v ssa.Value) bool {
+		u, ok := v.(*ssa.UnOp)
+		if !ok || u.Op != token.MUL {
+			return false
+		}
+		fa, ok := u.X.(*ssa.FieldAddr)
+		if !ok {
+			return false
+		}
+		switch namedOf(fa.X.Type()) + "." + fieldName(fa.X.Type(), fa.Field) {
+		case "super.TypeUnion.Types", "super.TypeRecord.Fields", "super.TypeEnum.Symbols":
+			return true
+		}
+		return false
+	}
+	// writes[fn][i]: fn writes elements of parameter i: it stores through an IndexAddr of an alias
+	// of the parameter (the parameter, a reslice, a phi or an append result of one), or appends to
+	// an alias that went through a reslice (out := p[:0]; out = append(out, x) overwrites p's elements)
+	writes := map[*ssa.Function]map[int]bool{}
+	for _, fn := range p.Funcs {
+		for i, prm := range fn.Params {
+			if _, isSlice := prm.Type().Underlying().(*types.Slice); !isSlice {
+				continue
+			}
+			alias := map[ssa.Value]bool{prm: true}
+			resliced := map[ssa.Value]bool{}
+			work := []ssa.Value{prm}
+			wr := false
+			for len(work) > 0 {
+				v := work[len(work)-1]
+				work = work[:len(work)-1]
+				if v.Referrers() == nil {
+					continue
+				}
+				for _, r := range *v.Referrers() {
+					switch x := r.(type) {
+					case *ssa.Slice:
+						if x.X == v && !alias[x] {
+							alias[x], resliced[x] = true, true
+							work = append(work, x)
+						}
+					case *ssa.Phi:
+						if !alias[x] {
+							alias[x] = true
+							resliced[x] = resliced[x] || resliced[v]
+							work = append(work, x)
+						} else if resliced[v] && !resliced[x] {
+							resliced[x] = true
+							work = append(work, x)
+						}
+					case *ssa.IndexAddr:
+						if x.X == v {
+							for _, rr := range *x.Referrers() {
+								if st, ok := rr.(*ssa.Store); ok && st.Addr == x {
+									wr = true
+								}
+							}
+						}
+					case *ssa.Call:
+						if bi, ok := x.Common().Value.(*ssa.Builtin); ok && bi.Name() == "append" && len(x.Common().Args) > 0 && x.Common().Args[0] == v {
+							if resliced[v] {
+								wr = true
+							}
+							if !alias[x] {
+								alias[x] = true
+								resliced[x] = resliced[v]
+								work = append(work, x)
+							}
+						}
+					}
+				}
+			}
+			if wr {
+				if writes[fn] == nil {
+					writes[fn] = map[int]bool{}
+				}
+				writes[fn][i] = true
+			}
+		}
+	}
+	n := 0
+	for _, fn := range p.Funcs {
+		pk := p.PkgOf(fn)
+		if pk == "" || strings.HasSuffix(p.Pos(fn.Pos()), "_test.go") {
+			continue
+		}
+		// forward taint within fn
+		tainted := map[ssa.Value]bool{}
+		var work []ssa.Value
+		for _, b := range fn.Blocks {
+			for _, in := range b.Instrs {
+				if v, ok := in.(ssa.Value); ok && isSrc(v) {
+					tainted[v] = true
+					work = append(work, v)
+				}
+			}
+		}
+		if len(work) == 0 {
+			continue
+		}
+		n++
+		for len(work) > 0 {
+			v := work[len(work)-1]
+			work = work[:len(work)-1]
+			if v.Referrers() == nil {
+				continue
+			}
+			for _, r := range *v.Referrers() {
+				switch x := r.(type) {
+				case *ssa.Slice:
+					if x.X == v && !tainted[x] {
+						tainted[x] = true
+						work = append(work, x)
+					}
+				case *ssa.Phi:
+					if !tainted[x] {
+						tainted[x] = true
+						work = append(work, x)
+					}
+				case *ssa.Store:
+					// stored into a local variable: loads of it are tainted
+					if a, ok := x.Addr.(*ssa.Alloc); ok && x.Val == v {
+						for _, rr := range *a.Referrers() {
+							if ld, ok := rr.(*ssa.UnOp); ok && ld.Op == token.MUL && !tainted[ld] {
+								tainted[ld] = true
+								work = append(work, ld)
+							}
+						}
+					}
+				case *ssa.IndexAddr:
+					if x.X != v {
+						continue
+					}
+					for _, rr := range *x.Referrers() {
+						if st, ok := rr.(*ssa.Store); ok && st.Addr == x {
+							c.Fail(rule, constructName(fn)+" writes into a type's member list", st.Pos(), "an element of a slice taken from a registered type (Types / Fields / Symbols) is assigned: the canonical type object changes under every value and lookup table that shares it")
+						}
+					}
+				case *ssa.Call:
+					cc := x.Common()
+					if bi, ok := cc.Value.(*ssa.Builtin); ok {
+						switch bi.Name() {
+						case "append":
+							if len(cc.Args) > 0 && cc.Args[0] == v && !tainted[x] {
+								tainted[x] = true
+								work = append(work, x)
+							}
+						case "copy":
+							if len(cc.Args) > 0 && cc.Args[0] == v {
+								c.Fail(rule, constructName(fn)+" writes into a type's member list", x.Pos(), "copy() writes into a slice taken from a registered type")
+							}
+						}
+						continue
+					}
+					g := cc.StaticCallee()
+					if g == nil {
+						continue
+					}
+					if nm := calleeName(cc); nm == "slices.Clone" || strings.HasPrefix(nm, "slices.Clone[") {
+						continue
+					}
+					for i, a := range cc.Args {
+						if a == v && writes[g][i] {
+							c.Fail(rule, constructName(fn)+" hands a type's member list to a function that writes it", x.Pos(), "a slice taken from a registered type (Types / Fields / Symbols) is passed, without slices.Clone, to "+fnName(g)+", which assigns elements of that parameter: fusing ({a:int64},{b:string}) with one of its own members rewrites the registered union in place to ({a:int64,b:string},{b:string}) while its id, lookup key and type value still describe the old structure")
+						}
+						// results of module functions that return (a reslice of) this parameter stay tainted
+						if a == v && returnsParam(g, i) && !tainted[x] {
+							tainted[x] = true
+							work = append(work, x)
+						}
+					}
+				}
+			}
+		}
+	}
+	if n < 10 {
+		c.Undecided(rule, "readers of type member lists", "fewer than ten functions reading Types/Fields/Symbols found ("+sprint(n)+")")
+		return
+	}
+	c.OK(rule, "readers of type member lists", token.NoPos, sprint(n)+" functions outside package zed read a type's member list; none writes through it")
+}
+
+// returnsParam: some return of g yields parameter i itself, a reslice of it, or append(param i, ..).
+func returnsParam(g *ssa.Function, i int) bool {
+	if i >= len(g.Params) {
+		return false
+	}
+	prm := g.Params[i]
+	for _, b := range g.Blocks {
+		for _, in := range b.Instrs {
+			ret, ok := in.(*ssa.Return)
+			if !ok {
+				continue
+			}
+			for _, r := range ret.Results {
+				if dependsOn(r, func(v ssa.Value) bool { return v == prm }) {
+					if _, isSlice := r.Type().Underlying().(*types.Slice); isSlice {
+						return true
+					}
+				}
+			}
+		}
+	}
+	return false
+}
+
+// ---- C19-K9: create-branch through the service uses the parent commit the client named.
+//
+// Direct access hands the caller's parent commit to Root.CreateBranch as it is; ksuid.Nil means
+// "an empty branch".  The handler must do the same with the request's commit: a parent derived
+// from anything the handler reads from the lake (the tip of main, say) gives a different branch
+// than direct access for the same call.
+func runCreateBranchParentFromRequest(c *Ctx, rule string) {
+	p := c.P
+	c.Rule(rule, "in service.handleBranchPost the parent commit passed to Root.CreateBranch is computed from the request (parsing its commit field) and from nothing the handler reads from the lake: the zero commit creates an empty branch through the service exactly as it does directly")
+	fn := p.Func("service.handleBranchPost")
+	if fn == nil {
+		c.Undecided(rule, "service.handleBranchPost", "anchor does not resolve")
+		return
+	}
+	n := 0
+	for _, ci := range allCalls(fn) {
+		if calleeName(ci.Common()) != "(*lake.Root).CreateBranch" {
+			continue
+		}
+		n++
+		args := ci.Common().Args
+		parent := args[len(args)-1]
+		var via string
+		dependsOnCtl(parent, func(v ssa.Value) bool {
+			call, ok := v.(*ssa.Call)
+			if !ok {
+				return false
+			}
+			nm := calleeName(call.Common())
+			if strings.HasPrefix(nm, "(*lake.Root).") || strings.HasPrefix(nm, "(*lake.Pool).") || strings.HasPrefix(nm, "(*lake.Branch).") {
+				via = nm
+				return true
+			}
+			return false
+		})
+		construct := "service.handleBranchPost parent commit of the new branch"
+		if via != "" {
+			c.Fail(rule, construct, ci.Pos(), "the parent commit depends on "+via+": for a request whose commit is the zero id the service creates the branch at main's tip, while direct access (and the client, which sends 27 zeros for ksuid.Nil) means an empty branch - the branch's contents, log and commit object differ from direct access with no error")
+		} else {
+			c.OK(rule, construct, ci.Pos(), "derived from the request only")
+		}
+	}
+	if n == 0 {
+		c.Undecided(rule, "service.handleBranchPost", "the call of Root.CreateBranch was not found")
+	}
+}
+
+// ---- C02-D2: the ZSON parser's depth counter is balanced.
+//
+// Parser.enter / Parser.leave bound the nesting depth.  If a path from a successful enter to a
+// return skips leave, every value that takes this path leaks one level for the life of the parser
+// - a whole zsonio stream - and after about ten thousand empty arrays the reader rejects valid
+// input with "nesting deeper than 10000 levels".
+func runDepthCounterBalanced(c *Ctx, rule string) {
+	p := c.P
+	c.Rule(rule, "in every function of package zson that calls Parser.enter, leave is deferred right after the tested enter, or every path from the enter to a return passes a call of leave: the depth counter returns to its value on every exit, so a long stream is not rejected for nesting it does not have")
+	n := 0
+	for _, fn := range p.FuncsIn("zson") {
+		for _, ci := range allCalls(fn) {
+			if calleeName(ci.Common()) != "(*zson.Parser).enter" {
+				continue
+			}
+			n++
+			construct := constructName(fn) + " pairs enter with leave"
+			isLeave := func(in ssa.Instruction) bool {
+				switch x := in.(type) {
+				case *ssa.Defer:
+					return calleeName(&x.Call) == "(*zson.Parser).leave"
+				case ssa.CallInstruction:
+					return calleeName(x.Common()) == "(*zson.Parser).leave"
+				}
+				return false
+			}
+			// returns taken because enter itself failed do not owe a leave
+			enterVal, _ := ci.(ssa.Value)
+			isRet := func(in ssa.Instruction) bool {
+				ret, ok := in.(*ssa.Return)
+				if !ok {
+					return false
+				}
+				if enterVal != nil {
+					for _, r := range *enterVal.Referrers() {
+						if cmp, ok := r.(*ssa.BinOp); ok && (isNilConst(cmp.X) || isNilConst(cmp.Y)) {
+							if cmp.Op == token.NEQ && trueEdgeDominatesOrSelf(cmp, ret.Block()) {
+								return false
+							}
+							if cmp.Op == token.EQL && falseEdgeDominatesOrSelf(cmp, ret.Block()) {
+								return false
+							}
+						}
+					}
+				}
+				return true
+			}
+			if bad := reachAvoiding(fn, ci.(ssa.Instruction), isLeave, isRet); bad != nil {
+				c.Fail(rule, construct, bad.Pos(), "a return is reachable from a successful enter without leave: each value taking this path (the probe for a first element of an empty array, set or map) leaks one nesting level for the life of the parser, and a stream of 3400 records with three empty containers each is rejected with `nesting deeper than 10000 levels`")
+			} else {
+				c.OK(rule, construct, ci.Pos(), "leave on every path")
+			}
+		}
+	}
+	if n < 2 {
+		c.Undecided(rule, "zson depth counter", "fewer than the two known enter sites found ("+sprint(n)+")")
+	}
+}
+
+// ---- C17-A1: one request, one commit.
+//
+// An operation on a list of objects (delete, vector add, vector delete, compaction, load) is
+// atomic because it is recorded by a single commit: a crash leaves all of it or none.  Committing
+// inside a loop over the list (one commit per object) makes an interrupted request partly visible.
+func runOneCommitPerRequest(c *Ctx, rule string) {
+	p := c.P
+	c.Rule(rule, "no method of lake.Branch calls Branch.commit (directly or through another Branch method) inside a loop: a request over several objects becomes visible through one commit point, so a crash leaves it complete or absent")
+	n := 0
+	for _, fn := range p.FuncsIn("lake") {
+		if fn.Signature.Recv() == nil || namedOf(fn.Signature.Recv().Type()) != "lake.Branch" || fn.Parent() != nil {
+			continue
+		}
+		for _, ci := range allCalls(fn) {
+			g := ci.Common().StaticCallee()
+			if g == nil || g.Signature.Recv() == nil || namedOf(g.Signature.Recv().Type()) != "lake.Branch" {
+				continue
+			}
+			commits := g.Name() == "commit"
+			if !commits {
+				for _, cj := range allCalls(g) {
+					if calleeName(cj.Common()) == "(*lake.Branch).commit" {
+						commits = true
+					}
+				}
+			}
+			if !commits {
+				continue
+			}
+			n++
+			construct := fnName(fn) + " commits once"
+			if inCycle(fn, ci.(ssa.Instruction)) {
+				c.Fail(rule, construct, ci.Pos(), "the commit is made inside a loop: `vector add id1 id2` interrupted after the first commit point leaves main with one of the two vectors, neither the state before nor the state after the request")
+			} else {
+				c.OK(rule, construct, ci.Pos(), "single commit point")
+			}
+		}
+	}
+	if n < 5 {
+		c.Undecided(rule, "lake.Branch commit points", "fewer than five committing methods found ("+sprint(n)+")")
+	}
+}
